@@ -2,8 +2,11 @@
    number, takes the operation list of a case (each operation a list of integers) and
    returns one integer list per operation, in the same canonical form the Go harness
    prints for the implementation. *)
-From Minter Require Import Base Consts Pool Float Orders Govern Persist PersistGen Rewards Ledger LedgerRun RLP.
+From Minter Require Import Base Consts Pool Float Orders Govern Persist PersistGen Rewards Ledger LedgerRun RLP Bancor.
 From Minter Require RewardRule.
+From Minter Require Ranking.
+From Minter Require Punish.
+From Minter Require EventStore.
 Open Scope Z_scope.
 
 Definition enc1 (z : Z) : list Z := [z].
@@ -231,6 +234,10 @@ Definition dispatch (model : Z) (ops : list (list Z)) : list (list Z) :=
   | 6 => map run_rewards_op ops
   | 7 => run_states ledger_step ledger_init ops
   | 10 => map run_rlp_op ops
+  | 11 => EventStore.evstore_run ops
+  | 12 => map run_bancor_op ops
+  | 14 => map Punish.run_punish_op ops
+  | 15 => map Ranking.run_ranking_op ops
   | 13 => run_states RewardRule.rewardrule_step RewardRule.rewardrule_init ops
   | _ => map (fun _ => [-1]) ops
   end.
